@@ -1277,6 +1277,69 @@ def rule_T5(ctx, rid='T5'):
     return len(paths)
 
 
+def rule_T10(ctx, rid='T10'):
+    """Every file state that run() leaves behind must be one from which a resumed run does what
+    the uninterrupted run did next.  After a checkpoint write the uninterrupted run goes on
+    inside the same iteration; a resumed run starts at the head of the loop.  The two agree when
+    the next thing either of them does is to evaluate a batch (the generator state is in the
+    file).  They differ when the uninterrupted run first takes a *phase decision* on the state
+    just written - the end-of-exploration test - which the resumed run only reaches after
+    another batch."""
+    ctx.rule(rid, 'resume-equivalent checkpoints: inside one iteration of run() no checkpoint '
+             'write is followed by the end-of-exploration decision without a batch evaluation '
+             'or the loop head in between')
+    from .cfg import edge_facts
+    prog = ctx.program
+    run = prog.func('Sampler.run')
+    cfg = cfg_of(run)
+    sn = run.self_name
+    loops = [n for n in cfg.nodes if n.kind == 'test' and isinstance(n.ast, ast.While)]
+    ctx.require(len(loops) == 1, 'Sampler.run: expected one while loop')
+    W = loops[0]
+    writes = [cfg.node_of(c).id for c in walk_no_nested(run.node) if isinstance(c, ast.Call) and
+              dotted(c.func) in ('%s.write' % sn, '%s.write_shell_update' % sn) and cfg.has(c)]
+    batches = {cfg.node_of(c).id for c in walk_no_nested(run.node) if isinstance(c, ast.Call)
+               and dotted(c.func) == '%s.add_samples' % sn and cfg.has(c)}
+    flips = [n.id for n in cfg.nodes if n.kind == 'stmt' and isinstance(n.ast, ast.Assign) and
+             dotted(n.ast.targets[0]) == '%s.explored' % sn]
+    ctx.require(writes and batches and flips, 'Sampler.run: checkpoint writes / batches / phase '
+                'flag assignment not found')
+    # the decision: the innermost test that guards the phase flip and is not the phase test itself
+    decisions = set()
+    for fl in flips:
+        for t, lab in cfg.strict_guards(fl):
+            e = cfg.nodes[t].expr
+            if cfg.nodes[t].kind == 'test' and e is not None and t != W.id and \
+                    unparse(e).replace('not ', '') != '%s.explored' % sn:
+                decisions.add(t)
+    ctx.require(decisions, 'Sampler.run: the test that ends exploration was not found')
+    n = 0
+    for k_, w in enumerate(sorted(set(writes), key=lambda i_: cfg.nodes[i_].lineno)):
+        bad = [d for d in decisions if d != w and
+               cfg.can_reach(w, d, avoid=batches | {W.id})]
+        # a write that sits inside the decided branch (after the decision) is the final state
+        bad = [d for d in bad if not cfg.dominates(d, w)]
+        n += 1
+        loopc = {tx for _, tx, _ in edge_facts(W.expr, True)}
+        gtx = [('' if tr else 'not ') + tx for _, tx, tr in cfg.facts(w)
+               if tx not in loopc and 'filepath' not in tx and not tx.startswith('isinstance(')]
+        callee = (dotted(cfg.nodes[w].ast.value.func).split('.')[-1]
+                  if isinstance(cfg.nodes[w].ast, ast.Expr) and
+                  isinstance(cfg.nodes[w].ast.value, ast.Call) else 'write')
+        ctx.ob(rid, 'Sampler.run:checkpoint-before-decision(%s|%s)' % (
+            callee, ' & '.join(gtx[-2:])[:70]), not bad,
+            run.where(cfg.nodes[w].ast),
+            'what follows this checkpoint inside the iteration starts with a batch evaluation, '
+            'the loop head, or nothing: a run resumed from it continues identically' if not bad
+            else 'after this checkpoint the same iteration goes on to decide `%s` (and, if it '
+            'holds, removes empty shells and sets explored) before any further batch; a run '
+            'resumed from the file it leaves - a kill during the long rewrite that follows - '
+            'starts at the loop head instead and draws one more exploration batch first: '
+            'different n_like, evidence and posterior than the uninterrupted run'
+            % unparse(cfg.nodes[bad[0]].expr)[:40])
+    return n
+
+
 INT_COUNTERS = {'self.shell_n', 'self.shell_n_sample', 'self.n_like'}
 
 
